@@ -131,6 +131,7 @@ func (r *runner) sweep(n int64, nw int, race bool, deadline time.Time, sink func
 	var mu sync.Mutex
 	var firstErr error
 	var completed int64
+	var hangs, finished int64
 	timeout := time.Duration(r.cfg.TimeoutS) * time.Second
 	for i := 0; i < nw; i++ {
 		wg.Add(1)
@@ -158,9 +159,19 @@ func (r *runner) sweep(n int64, nw int, race bool, deadline time.Time, sink func
 				if stop {
 					return
 				}
+				// when runs hang systematically (a lock that is never released, a wait that never ends) every
+				// further run costs a full watchdog period: a handful of witnesses is enough
+				if h := atomic.LoadInt64(&hangs); h >= 6 && atomic.LoadInt64(&finished) < 20*h {
+					return
+				}
 				t0 := time.Now()
 				resp, ci, e := w.do(r.request(run), timeout)
 				o := outcome{run: run, race: race, dur: time.Since(t0), before: append([]int64(nil), recent...)}
+				if ci != nil && ci.TimedOut {
+					atomic.AddInt64(&hangs, 1)
+				} else {
+					atomic.AddInt64(&finished, 1)
+				}
 				recent = append(recent, run)
 				if len(recent) > 64 {
 					recent = recent[len(recent)-64:]
@@ -988,7 +999,7 @@ func (r *runner) confirmAndMinimise(c *candidate, tier string) (string, *replayF
 		sh.budget, sh.deadline = 6000, time.Now().Add(180*time.Second)
 	}
 	if c.v.Oracle == "liveness" {
-		sh.budget = 3 // every replay of a hang costs a full watchdog period
+		sh.budget = 1 // every replay of a hang costs a full watchdog period
 	} else if c.tape == nil {
 		// the worker dies on every failing candidate and must be restarted
 		sh.budget, sh.deadline = 160, time.Now().Add(45*time.Second)
